@@ -1,9 +1,10 @@
 """C14 — ill-formed grammars are rejected, never silently repaired.
 
-Proof: the front end is (scanner model FScan: C13) + (shipped LR tables = spec grammar: C15, for ALL token sequences; recovery gated off:
-C15_gated_recovery_never_triggers), so a grammar file whose token sequence is not a sentence of spec/gocc2.ebnf is rejected by the model;
-Properties/C14.v restates this composition. The semantic checks (undefined production / regular definition, duplicate definitions) are
-Go code outside the models: explored.
+Proof: the front end is (scanner model FScan: C13) + (shipped LR tables = spec grammar: C15, for ALL token sequences; recovery gated off)
++ (semantic checks: Front/Sem.v, a model of the Go code, proved equivalent to a declarative well-formedness predicate; the definitions
+it cuts out of the token list are proved to be the definition nodes of the parse tree). Properties/C14.v.
+Tie R: valid_backward / valid_forward / gate on the shipped tables and colon_ok / cut_ok on the spec grammar, by the kernel, every run.
+Tie K: Sem.front_accepts (extracted) vs gocc's exit status, BOTH directions, on bases, token mutants and semantic mutants.
 Tie K / oracle: token-level mutants of well-formed grammars (delete / insert / substitute a token, rename a reference, duplicate a
 definition). Ill-formedness is decided by the harness from the REAL scanner's token stream: Earley on the spec grammar + the semantic rules.
 Whenever it says ill-formed the binary must exit non-zero; the model front end (FScan + Parse on the shipped tables) must reject too."""
@@ -12,6 +13,7 @@ import os
 import re
 import subprocess
 
+import semharness
 import c09
 import c10
 import c13
@@ -98,14 +100,32 @@ def run(ctx):
             lg, alpha = lexgen.gen_lex_grammar(rng)
             bases.append(lg.text().encode("utf-8"))
     base_toks = [c13.toks_of(l) for l in c13.fscan_go(ctx, bases)]
-    muts = []
+    ty, ftnums = semharness.init(names)
+    for i in range(20 if not thorough else 150):
+        bases.append(semharness.base_grammar(rng, i))
+    base_toks = [c13.toks_of(l) for l in c13.fscan_go(ctx, bases)]
+    # R: the side conditions of C14_accepted_files_are_well_formed on (spec grammar, shipped tables), by the kernel
+    obl = semharness.kernel_obligations(g, tables, items, nl, fs, ty[":"] + 1, ty[";"] + 1, ctx.mktemp("c14obl"))
+    for label, what in (("vb", "valid_backward spec shipped_tables annot"), ("vf", "valid_forward spec shipped_tables annot"),
+                        ("gate", "recovery gated off and no recovering state in the shipped tables"),
+                        ("colon", "colon_ok spec (':' occurs only after a definition head)"),
+                        ("cut", "cut_ok spec (definitions are exactly  head ':' body ';')")):
+        ctx.add_obligation("R: %s = true by vm_compute (Coq kernel)" % what, bool(obl.get(label)), obl.get("__error__", ""))
+    muts = [(b, "base (unmodified)", b) for b in bases]
     for b, tk in zip(bases, base_toks):
         tk = [x for x in tk if x[0] != 0]
         if len(tk) < 4:
             continue
-        for _ in range(12 if not thorough else 40):
-            m, desc = token_mutant(b, tk, rng)
-            muts.append((m, desc, b))
+        for k in range(12 if not thorough else 40):
+            if k % 2 == 0:
+                m, desc = token_mutant(b, tk, rng)
+                muts.append((m, desc, b))
+            else:
+                for _ in range(6):
+                    r = semharness.sem_mutant(b, tk, rng)
+                    if r:
+                        muts.append((r[0], "semantic: " + r[1], b))
+                        break
     lines = c13.fscan_go(ctx, [m for (m, _, _) in muts])
     mlines = c13.fscan_model(ctx, [m for (m, _, _) in muts])
     ws = gen.Workspace(ctx)
@@ -126,6 +146,13 @@ def run(ctx):
         verdicts.append((syn_ok, sem))
         model_in.append(" ".join(str(t + 1) for (t, lit, off) in tk if t != 0))
     mo = vlib.run_lines([ctx.modelrun, "parse", tf, "20000"], "".join(l + "\n" for l in model_in)) if model_in else []
+    # the whole front-end model: parser on the shipped tables && semantic verdict
+    sem_in = [" ".join("%d:%s" % (t, lit.hex()) for (t, lit, off) in c13.toks_of(line) if t != 0) for line in lines]
+    so = vlib.run_lines([ctx.modelrun, "frontsem", tf, "60"] + [str(x) for x in ftnums], "".join(x + "\n" for x in sem_in), timeout=3600)
+    so += ["REJ PARSE=? SEM=MODEL-NO-OUTPUT"] * (len(sem_in) - len(so))
+    PROPERTY_CLASSES = ("parse", "dup", "undefined-prod", "undefined-regdef", "empty-alt")
+    sem_hist = collections.Counter()
+    sem_dis = 0
     for i, ((m, desc, b), (syn_ok, sem)) in enumerate(zip(muts, verdicts)):
         total += 1
         rc, out, dd = ws.gocc("m%d" % i, m, flags=["-a"], timeout=30)
@@ -134,6 +161,32 @@ def run(ctx):
         if ill:
             distinct.add(m)
         model_acc = c15.model_line(mo[i]).startswith("ACC") if i < len(mo) else None
+        # K: Sem.front_accepts vs exit status, both directions (the accept/reduce conflict "S' : S" with S =>+ S is refused later, in the
+        # table generator, and a timeout says nothing: counted apart)
+        gcls, mcls = semharness.classify(rc, out), semharness.model_class(so[i])
+        sem_hist["model %s / gocc %s" % (mcls if mcls in ("accept", "parse") else "sem-reject", gcls if gcls in ("accept", "accept-conflict", "timeout") else "reject")] += 1
+        if gcls in ("timeout", "accept-conflict"):
+            if mcls != "accept" and gcls == "accept-conflict" and reported < 3:
+                ctx.violation({"kind": "correspondence-broken", "correspondence": "Sem.front_accepts vs gocc", "file": m.decode("utf-8", "replace")[:800],
+                               "model": so[i], "gocc_exit": rc, "gocc_output": out[-300:]}, found_input=False)
+                reported += 1
+                sem_dis += 1
+        elif (mcls == "accept") != (rc == 0):
+            sem_dis += 1
+            if reported < 3:
+                if rc == 0 and mcls in PROPERTY_CLASSES:
+                    ctx.violation({"kind": "model-and-implementation-disagree: ill-formed file accepted", "mutation": desc,
+                                   "file": m.decode("utf-8", "replace"), "why_ill_formed(front-end model)": so[i], "gocc_exit": rc,
+                                   "gocc_output": out[-300:]})
+                else:
+                    ctx.violation({"kind": "correspondence-broken", "correspondence": "Sem.front_accepts (parser on shipped tables && semantic "
+                                   "verdict) vs gocc's exit status", "mutation": desc, "file": m.decode("utf-8", "replace")[:800], "model": so[i],
+                                   "gocc_exit": rc, "gocc_output": out[-300:]}, found_input=False)
+                reported += 1
+        elif mcls != "accept":
+            semr = so[i].split()[2][len("SEM="):] if len(so[i].split()) > 2 else ""
+            if not (gcls == mcls or (mcls == "parse" and gcls == "dup" and semr.startswith("dup-"))):
+                sem_hist["reason-class mismatch"] += 1
         if ill and rc == 0:
             if reported < 3:
                 ctx.violation({"kind": "property-oracle-on-implementation", "mutation": desc, "file": m.decode("utf-8", "replace"),
@@ -156,12 +209,17 @@ def run(ctx):
     ctx.write_evidence("proof", {
         "evaluations": total, "distinct_nontrivial": len(distinct),
         "rule": "well-formed grammar files (CFGs with lexical part; random lexical grammars) damaged at token level: delete / insert / "
-                "substitute one token (30/25/20%), rename one reference to an undefined name (15%), duplicate a lexical definition (10%); "
-                "non-trivial = mutants that are ill-formed by the oracle; distinct files",
+                "substitute one token (30/25/20%), rename one reference to an undefined name (15%), duplicate a lexical definition (10%); and "
+                "damaged semantically (26 kinds: duplicate token / regular definition / ignored token, undefined regular definition in a token, in "
+                "a used or unused definition, self / mutual recursion used or unused, undefined upper-case / lower-case / non-ASCII upper-case "
+                "symbol, reserved names, string literals clashing with productions or lexical identifiers, duplicate production); unmodified "
+                "bases included; non-trivial = files that are ill-formed by the oracle; distinct files",
         "samples": samples, "programs": len(bases), "verdict_histogram": dict(hist),
-        "traces_validated_against_impl": total, "disagreements": disagreements,
-    }, ["the semantic rules (undefined production / regular definition, duplicate definition) are evaluated by the harness on the real "
-        "scanner's token stream; the Go code implementing them (ast.consistent, LexProdMap) is explored, not modelled",
+        "front_end_model_vs_gocc": dict(sem_hist), "plain_nonterminals_of_the_spec": [nts[i] for i in obl.get("plain_nonterminals", [])],
+        "traces_validated_against_impl": total, "disagreements": disagreements + sem_dis,
+    }, ["the semantic rules are modelled in Front/Sem.v (tied by correspondence on every file of the run, both directions) and, independently, "
+        "evaluated by the harness on the real scanner's token stream (undefined production / regular definition, duplicate definition)",
+        "gocc reports duplicates, string-literal clashes and recursion by Go panics (exit 2): non-zero, which is all the property asks",
         "character-level damage (unterminated comments or literals, illegal escapes: the scanner counts errors that nobody reads) is outside "
         "the property's quantifier (token-level violations); see notes/FSCAN_NOTES.md",
         "a syntax production defined twice merges its alternatives (not an error by the property)"])
